@@ -12,6 +12,8 @@ import (
 	"github.com/bronlabs/bron-crypto/pkg/mpc/sharing/vss/feldman"
 	"github.com/bronlabs/bron-crypto/pkg/proofs/sigma/compiler/fiatshamir"
 
+	"verif/harness/internal/drive"
+	dcan "verif/harness/internal/drive/canetti"
 	dgen "verif/harness/internal/drive/gennaro"
 	"verif/harness/internal/vh"
 )
@@ -62,15 +64,15 @@ func Deal[G algebra.PrimeGroupElement[G, S], S algebra.PrimeFieldElement[S]](gro
 
 // Material produces key material for policy p over group from the source named by
 // c.KeySource: "" / "dealer" — the trusted dealer above on the stream
-// vh.NewRng(c.Seed, c.Prop, "deal", 0); "gennaro" — the real Gennaro DKG among all holders
-// of the policy, driven by drive/gennaro (tapes keyed by c.Prop+"-dkg", seeded session
-// contexts, Fiat–Shamir compiler); the joint secret is then reconstructed from all shares
+// vh.NewRng(c.Seed, c.Prop, "deal", 0); "gennaro" / "canetti" — the real Gennaro resp. Canetti DKG
+// among all holders of the policy, driven by drive/gennaro resp. drive/canetti (tapes keyed by
+// c.Prop+"-dkg", seeded session contexts, Fiat–Shamir compiler for Gennaro); the joint secret is then reconstructed from all shares
 // (it exists nowhere in a DKG) so that the check can tie signatures to the exponent model.
 func Material[G algebra.PrimeGroupElement[G, S], S algebra.PrimeFieldElement[S]](c Common, group algebra.PrimeGroup[G, S], p Policy) (*Dealt[G, S], error) {
 	switch c.KeySource {
 	case "", "dealer":
 		return Deal[G, S](group, p, vh.NewRng(c.Seed, c.Prop, "deal", 0))
-	case "gennaro":
+	case "gennaro", "canetti":
 		ac, err := p.Build()
 		if err != nil {
 			return nil, fmt.Errorf("policy refused: %w", err)
@@ -80,7 +82,15 @@ func Material[G algebra.PrimeGroupElement[G, S], S algebra.PrimeFieldElement[S]]
 		if err != nil {
 			return nil, fmt.Errorf("dkg contexts: %w", err)
 		}
-		res := dgen.RunFull(dgen.Config[G, S]{Seed: c.Seed, Prop: c.Prop + "-dkg", Group: group, AC: ac, Compiler: fiatshamir.Name, Ctxs: ctxs})
+		var dkgShards map[sharing.ID]*mpc.BaseShard[G, S]
+		var dkgTrace *drive.Trace
+		if c.KeySource == "gennaro" {
+			res := dgen.RunFull(dgen.Config[G, S]{Seed: c.Seed, Prop: c.Prop + "-dkg", Group: group, AC: ac, Compiler: fiatshamir.Name, Ctxs: ctxs})
+			dkgShards, dkgTrace = res.Shards, res.Trace
+		} else {
+			res := dcan.RunFull(dcan.Config[G, S]{Seed: c.Seed, Prop: c.Prop + "-dkg", Group: group, AC: ac, Ctxs: ctxs})
+			dkgShards, dkgTrace = res.Shards, res.Trace
+		}
 		d := &Dealt[G, S]{Policy: p, AC: ac, Shards: map[sharing.ID]*mpc.BaseShard[G, S]{}, Holders: holders}
 		scheme, err := feldman.NewScheme(group, ac)
 		if err != nil {
@@ -88,9 +98,9 @@ func Material[G algebra.PrimeGroupElement[G, S], S algebra.PrimeFieldElement[S]]
 		}
 		var shares []*feldman.Share[S]
 		for _, id := range holders {
-			sh, ok := res.Shards[id]
+			sh, ok := dkgShards[id]
 			if !ok || sh == nil {
-				return nil, fmt.Errorf("gennaro DKG did not complete for %d: %s", uint64(id), res.Trace.Verdicts[id].Detail)
+				return nil, fmt.Errorf("%s DKG did not complete for %d: %s", c.KeySource, uint64(id), dkgTrace.Verdicts[id].Detail)
 			}
 			d.Shards[id] = sh
 			d.PK = sh.PublicKeyValue()
